@@ -37,7 +37,7 @@ PROFILES: List[Tuple[str, float, Dict[str, Any]]] = [
     ('docassign', 1, dict(reexport=0.3, docassign=0.7, roots=(1, 2))),
     ('dups',      1, dict(reexport=0.4, dup=0.5, roots=(1, 2))),
     ('shadow',    2, dict(reexport=0.7, shadow_import=0.7, rebind_same=0.4, roots=(1, 3), consumer_roots=True)),
-    ('attrs',     3, dict(reexport=0.4, attr_pool=0.9, method_pool=True, defs=(2, 4), roots=(1, 2), nested=0.0, star=0.05)),
+    ('attrs',     4, dict(reexport=0.4, attr_pool=0.9, method_pool=True, defs=(2, 4), roots=(1, 2), nested=0.0, star=0.05)),
 ]
 
 
